@@ -892,6 +892,135 @@ def _run_shard(job):
 # ------------------------------------------------------------------ run / replay
 
 
+
+# ------------------------------------------------------------------ extra part: sequences of decorations, unusual defaults
+
+
+def extra_part(only=None):
+    """Cases the program products above cannot express:
+    (X1) TWO decorations in sequence of functions with the same name / qualname / module whose
+         annotations print the same but are DIFFERENT classes - each decorated function must keep
+         checking against ITS OWN annotation objects (cross-talk through any decoration-level cache);
+    (X2) default values with a non-standard `==` (equal to everything, raising, element-wise):
+         decoration must succeed and the default object itself must reach the body."""
+    common.bind_repo()
+    import typeguard
+    import beartype
+    from jaxtyping import Float, jaxtyped
+
+    tcs = {"typeguard": typeguard.typechecked, "beartype": beartype.beartype}
+    viols, n = [], 0
+
+    def bad(key, what, rep):
+        viols.append(Violation(key=key, what=what, replay=dict(extra=True, **rep)).to_json())
+
+    def factory(tag, with_ret, log):
+        class Arr:
+            def __init__(self, shape):
+                self.shape = shape
+                self.dtype = "float32"
+
+        def bump(x, k=0):
+            log.append((tag, id(x)))
+            return x
+
+        # (this module uses `from __future__ import annotations`: set real annotation objects)
+        bump.__annotations__ = {"x": Float[Arr, "a"], "k": int}
+        if with_ret:
+            bump.__annotations__["return"] = Float[Arr, "a"]
+        return Arr, bump
+
+    for tcn, tc in tcs.items():
+        for with_ret in (False, True):
+            for order in ("decorate-both-then-call", "interleaved"):
+                rep = dict(part="crosstalk", tc=tcn, with_ret=with_ret, order=order)
+                if only is not None and only != rep:
+                    continue
+                log = []
+                A1, f1 = factory(1, with_ret, log)
+                A2, f2 = factory(2, with_ret, log)
+                d1 = jaxtyped(typechecker=tc)(f1)
+                steps = []
+                if order == "interleaved":
+                    steps.append(("d1", d1, A1, True))
+                d2 = jaxtyped(typechecker=tc)(f2)
+                steps += [("d1", d1, A1, True), ("d2", d2, A2, True), ("d1", d1, A2, False), ("d2", d2, A1, False), ("d2", d2, A2, True), ("d1", d1, A1, True)]
+                for name, d, cls, well in steps:
+                    n += 1
+                    x = cls((2,))
+                    before = len(log)
+                    try:
+                        r = d(x)
+                        raised = None
+                    except Exception as e:  # noqa: BLE001
+                        r, raised = None, type(e).__name__
+                    ran = len(log) - before
+                    if well and (raised is not None or ran != 1 or r is not x):
+                        bad(f"C07:extra:crosstalk:{tcn}:welltyped-{'raised-' + raised if raised else 'body-ran-' + str(ran)}",
+                            f"{tcn}, two functions with identical name/qualname/module and identically printing annotations over DIFFERENT classes ({order}): well-typed call of {name} -> raised={raised}, body ran {ran}x, result identical={r is x}", rep)
+                        break
+                    if not well and (raised is None or ran != 0):
+                        bad(f"C07:extra:crosstalk:{tcn}:illtyped-{'accepted' if raised is None else 'body-ran'}",
+                            f"{tcn} ({order}): {name} called with an instance of the OTHER function's array class -> raised={raised}, body ran {ran}x (must raise without running the body)", rep)
+                        break
+
+    class EqAll:
+        def __eq__(self, other):
+            return True
+
+        def __ne__(self, other):
+            return False
+
+        __hash__ = object.__hash__
+
+    class EqRaises:
+        def __eq__(self, other):
+            raise RuntimeError("== on a default")
+
+        __ne__ = __eq__
+        __hash__ = object.__hash__
+
+    def mk_defaults():
+        import numpy as np
+        from unittest import mock
+
+        return {"eq-all": EqAll(), "eq-raises": EqRaises(), "ndarray": np.zeros(3), "mock.ANY": mock.ANY}
+
+    from ..adapter import Duck
+
+    for tcn, tc in tcs.items():
+        for dname in ("eq-all", "eq-raises", "ndarray", "mock.ANY"):
+            for kind in ("pos-or-kw", "kw-only", "pos-only"):
+                for annotated in (False, True):
+                    rep = dict(part="default-eq", tc=tcn, default=dname, kind=kind, annotated=annotated)
+                    if only is not None and only != rep:
+                        continue
+                    n += 1
+                    dflt = mk_defaults()[dname]
+                    seen = []
+                    sig = {"pos-or-kw": "x, y=DFLT", "kw-only": "x, *, y=DFLT", "pos-only": "x, y=DFLT, /"}[kind]
+                    ns = {"DFLT": dflt, "seen": seen}
+                    exec(f"def f({sig}):\n    seen.append(y)\n    return x\n", ns)
+                    f = ns["f"]
+                    f.__annotations__ = {"x": Float[Duck, "a"], "return": Float[Duck, "a"]}
+                    if annotated:
+                        f.__annotations__["y"] = object
+                    try:
+                        d = jaxtyped(typechecker=tc)(f)
+                    except Exception as e:  # noqa: BLE001
+                        bad(f"C07:extra:default-eq:{dname}:decoration-{type(e).__name__}", f"{tcn}: decorating def f({sig}) with default {dname} raised {type(e).__name__}: {e}"[:300], rep)
+                        continue
+                    x = Duck((2,))
+                    try:
+                        r = d(x)
+                    except Exception as e:  # noqa: BLE001
+                        bad(f"C07:extra:default-eq:{dname}:welltyped-call-raised-{type(e).__name__}", f"{tcn}: f({sig}) default {dname}: well-typed call relying on the default raised {type(e).__name__}: {str(e)[:160]}", rep)
+                        continue
+                    if r is not x or len(seen) != 1 or seen[0] is not dflt:
+                        bad(f"C07:extra:default-eq:{dname}:default-object-not-delivered", f"{tcn}: f({sig}) default {dname}: body ran {len(seen)}x, received default identical={bool(seen) and seen[0] is dflt}, result identical={r is x}", rep)
+    return n, viols
+
+
 def run(ctx):
     nsh = common.NCPU * 2
     jobs = [dict(tier=ctx.tier, shard=s, nshards=nsh) for s in range(nsh)]
@@ -925,6 +1054,14 @@ def run(ctx):
             raise common.HarnessError(f"violation does not replay deterministically: {v['key']} {r1} {r2}")
         viols.append(Violation(key=v["key"], what=v["what"] + f"\n  ({per_key[v['key']]} instance(s) of this key in the run)", replay=v["replay"]))
     samples = [s for o in outs for s in o["samples"]][:5]
+    x_n, x_viols = extra_part()
+    xk = set()
+    for v in x_viols:
+        if v["key"] not in xk:
+            xk.add(v["key"])
+            viols.append(Violation(**v))
+    stats["evaluations"] += x_n
+    stats["nontrivial"] += x_n
     b = bounds(ctx.tier)
     cov = dict(
         evaluations=stats["evaluations"],
@@ -956,6 +1093,7 @@ def run(ctx):
         "{the wrapper's output name}, {a positional-only parameter's name}, {T0|default0}) x body mode {return, raise}; non-binding lists "
         "{missing, unexpected keyword, too many positionals, multiple values, positional-only by keyword}; ill-typed lists {wrong rank at each annotated "
         "parameter, inconsistent axis size at the last annotated parameter}",
+        extra_cases=x_n,
         caps="none (violations stored per key are capped at 3; all instances are counted in violation_instances)",
     )
     return Result(
@@ -976,6 +1114,10 @@ def run(ctx):
 
 
 def replay(rep):
+    if rep.get("extra"):
+        only = {k: v for k, v in rep.items() if k != "extra"}
+        n, v = extra_part(only=only)
+        return dict(violations=[x["what"] for x in v], violates=bool(v), symptom=v[0]["key"] if v else None)
     env = _Env()
     spec = spec_from_json(rep["spec"])
     case = dict(rep["case"])
